@@ -746,7 +746,7 @@ pub fn opts_for(cx: &Ctx) -> YOpts {
     let mut o = YOpts::full();
     // open known findings are excluded by construction in the main search (DESIGN §2.6);
     // `open-finding-shapes` keeps generating them
-    o.avoid = gy::YAvoid { empty_value_before_col0_quoted_key: true, comment_after_root_anchor: true, compact_collection_return_after_deeper: false, tab_after_dash_before_flow_or_quoted: false, opener_after_space_in_plain: false, quote_inside_flow_plain: true, block_scalar_on_compact_line: false, compact_quoted_key_space_colon: true, tab_after_closing_quote: true, nextline_plain_continuation_not_deeper: true, literal_hash_first_then_indented: true, root_block_scalar_reread: true, empty_node_at_eof_len64: true };
+    o.avoid = gy::YAvoid { empty_value_before_col0_quoted_key: true, comment_after_root_anchor: true, compact_collection_return_after_deeper: false, tab_after_dash_before_flow_or_quoted: false, opener_after_space_in_plain: false, quote_inside_flow_plain: true, block_scalar_on_compact_line: false, compact_quoted_key_space_colon: false, tab_after_closing_quote: true, nextline_plain_continuation_not_deeper: true, literal_hash_first_then_indented: true, root_block_scalar_reread: true, empty_node_at_eof_len64: false };
     o.max_depth = if cx.tier == Tier::Quick { 40 } else { 100 };
     o
 }
